@@ -116,6 +116,7 @@ PROPS = {
     'C16': dict(
         covered=['location_from_span: line = start line, column = start column + 1 (1-based), char offset/length from the marks, byte offset/length when both byte marks exist and fit, else (0,0); Span::byte_offset/byte_len; Locations::same',
                  'Ev::location, KeyNode::location; ReplayEvents::reference_location = override, else current event, else last; last_location',
+                 'Error::from_scan_error: a scanner error is located at the scanner\'s own mark (line, column + 1, character offset, length 1, no byte information), whatever kind of error it becomes',
                  'span-carrying values (src/de/spanned_deser.rs): deserialize_yaml_spanned records, before the node is consumed, the use site (the alias token while an alias is replayed, else the node) as `referenced` and the node as `defined`; the synthetic struct views hand out exactly the fields value / referenced / defined, line / column / span, offset / len / byte_info, each under its own name and with its own number, and the byte offset before the byte length',
                  'the Events trait contract for reference_location: after a successful peek it is the alias token while an alias is being replayed, else the location of the peeked event (ReplayEvents and LiveEvents both proved against it); SA::next_element_seed, MA::next_value_seed and VA::newtype_variant_seed hand exactly that use site, and the node\'s own location as definition site, to the seed'],
         not_covered=['that saphyr-parser marks agree with each other and with the text; serde static-error fallback location (thread-local); that the derived Deserialize of Spanned / Location / Span puts each named field into the field of that name (serde-generated)'],
